@@ -4,6 +4,7 @@
 (* vary at every level.  Mode "id": resources fixed, every identity facet of    *)
 (* the certificate at the chosen level varies (single and multiple tampers).    *)
 (* Instants are counted in half units: certificates carry whole units (0, 2, 4),*)
+(* ("long" as authority key identifier: the issuer's identifier followed by one more octet.)                          *)
 (* the evaluation instant is 2 or, in the identity modes, also 3 - an instant   *)
 (* strictly between two representable certificate times (X.509 times have whole *)
 (* seconds, the clock has not; realised as one unit plus half a second).        *)
@@ -32,7 +33,7 @@ TaRes == {[v4 |-> a, v6 |-> Res("blocks", {"a1", "a2"}), as |-> b] : a \in {Res(
                  [v4 |-> Res("missing", {}), v6 |-> Res("inherit", {}), as |-> Res("missing", {})]}
 IdVariants(base, issKey) ==
     {[base EXCEPT !.sigKey = sk, !.aki = ak, !.skiOk = so, !.tamper = tp, !.nb = nb, !.na = na] :
-        sk \in Keys, ak \in Keys \cup {NoKey}, so \in BOOLEAN, tp \in {"none", "sigbit", "tbsbyte"},
+        sk \in Keys, ak \in Keys \cup {NoKey, "long"}, so \in BOOLEAN, tp \in {"none", "sigbit", "tbsbyte"},
         nb \in {0, 2, 4}, na \in {0, 2, 4}}
 ValidateTA ==
     /\ chain = <<>> /\ ~dead /\ certs = <<>>
